@@ -29,10 +29,22 @@ func (c *countingClient) Ping(ctx context.Context) error {
 	return c.BaseClient.Ping(ctx)
 }
 
+// scripts with a slow answer `s`: the answer takes longer than the interval (so ticks pile up behind the ping) and
+// much less than the timeout (so the peer is healthy by a wide margin, whatever the machine load)
+const (
+	kaSlowInterval = 5 * time.Millisecond
+	kaSlowTimeout  = 600 * time.Millisecond
+	kaSlowAnswer   = 350 * time.Millisecond
+)
+
 func init() {
 	register(&funcEngine{name: "ka", par: 32,
 		gen: func(rng *rand.Rand, tier string, n int, emit func(string)) {
 			for _, s := range []string{"n", "c", "w", "e", "a n", "a a a c", "a a w", "a e", "a a a a a a n", "A n", "A A A c", "a A a A e"} {
+				emit(s)
+			}
+			// a healthy but slow peer: every answer comes later than the ping interval and well within the timeout
+			for _, s := range []string{"s s s c", "s s a s e", "a s s s n"} {
 				emit(s)
 			}
 			for i := 0; i < n; i++ {
@@ -76,6 +88,11 @@ func init() {
 				switch f[i] {
 				case "a":
 					tr.feed(specPacket(0xd0, nil))
+				case "s":
+					go func() {
+						time.Sleep(kaSlowAnswer)
+						tr.feed(specPacket(0xd0, nil))
+					}()
 				case "A":
 					// a very fast broker: the response has been read and processed by the client's
 					// reader goroutine before Write returns to the pinging goroutine
@@ -87,8 +104,14 @@ func init() {
 					tr.feedEOF()
 				}
 			}
+			interval, timeout := 2*time.Millisecond, 25*time.Millisecond
+			for _, t := range f {
+				if t == "s" {
+					interval, timeout = kaSlowInterval, kaSlowTimeout
+				}
+			}
 			done := make(chan error, 1)
-			go func() { done <- mqtt.KeepAlive(parent, cc, 2*time.Millisecond, 25*time.Millisecond) }()
+			go func() { done <- mqtt.KeepAlive(parent, cc, interval, timeout) }()
 			var err error
 			select {
 			case err = <-done:
